@@ -10,7 +10,12 @@
 //! 2 = harness error.
 
 mod exec;
+mod faultalloc;
 mod trace;
+
+#[cfg(not(miri))]
+#[global_allocator]
+static ALLOC: faultalloc::FaultAlloc = faultalloc::FaultAlloc;
 
 use exec::{execute, Outcome, RunStats, Violation};
 use simcore::{ddmin, fnv1a64, json_str, parse_args, Counters};
@@ -518,7 +523,7 @@ fn cmd_enum(kv: &BTreeMap<String, String>) -> i32 {
                 ops.push(Op::Flush);
                 ops.push(Op::Access);
                 items.push(Item {
-                    base: Trace { seed: 0, run: 0, kind: Kind::Caller, cap: *cap, room: cfg.room, prefill: vec![b'P'; pre], grows: vec![], ops },
+                    base: Trace { seed: 0, run: 0, kind: Kind::Caller, cap: *cap, room: cfg.room, prefill: vec![b'P'; pre], grows: vec![], ops, alloc_fail_at: None },
                     faults: true,
                 });
             }
@@ -528,14 +533,14 @@ fn cmd_enum(kv: &BTreeMap<String, String>) -> i32 {
         for s in &seqs_f {
             let mut ops: Vec<Op> = s.iter().enumerate().map(|(i, a)| if *a == cfg.lens.len() { Op::Flush } else { Op::Write(chunk_for(cfg.lens[*a], i)) }).collect();
             ops.push(Op::Flush);
-            items.push(Item { base: Trace { seed: 0, run: 0, kind: Kind::Fixed, cap: *n, room: 0, prefill: vec![], grows: vec![], ops }, faults: false });
+            items.push(Item { base: Trace { seed: 0, run: 0, kind: Kind::Fixed, cap: *n, room: 0, prefill: vec![], grows: vec![], ops, alloc_fail_at: None }, faults: false });
         }
     }
     for cap in std::iter::once(&0usize).chain(cfg.caps.iter()) {
         for s in &seqs_f {
             let mut ops: Vec<Op> = s.iter().enumerate().map(|(i, a)| if *a == cfg.lens.len() { Op::Flush } else { Op::Write(chunk_for(cfg.lens[*a] * 3, i)) }).collect();
             ops.push(Op::Access);
-            items.push(Item { base: Trace { seed: 0, run: 0, kind: Kind::Owned, cap: *cap, room: 0, prefill: vec![], grows: vec![], ops }, faults: false });
+            items.push(Item { base: Trace { seed: 0, run: 0, kind: Kind::Owned, cap: *cap, room: 0, prefill: vec![], grows: vec![], ops, alloc_fail_at: None }, faults: false });
         }
     }
     let items = &items;
@@ -575,6 +580,37 @@ fn cmd_enum(kv: &BTreeMap<String, String>) -> i32 {
     }
     agg.counters.add("enum_work_items", items.len() as u64);
     finish(agg, 0, &out_dir, None, "enumerated")
+}
+
+/// One Rust-owned-writer trace with an injected allocation failure, in its own process (on the
+/// unchanged tree the failing `Vec::reserve` ends in Rust's out-of-memory abort, which the
+/// orchestrator recognises and counts as "aborted cleanly").
+fn cmd_allocfault(kv: &BTreeMap<String, String>) -> i32 {
+    let seed: u64 = kv.get("seed").map(|s| s.parse().unwrap()).unwrap_or(simcore::DEFAULT_SEED);
+    let run: u64 = kv.get("run").map(|s| s.parse().unwrap()).unwrap_or(0);
+    let prop = kv.get("prop").cloned().unwrap_or_else(|| "C12".into());
+    let t = match kv.get("replay") {
+        Some(p) => match std::fs::read_to_string(p).map_err(|e| e.to_string()).and_then(|s| Trace::from_text(&s)) {
+            Ok(t) => t,
+            Err(e) => {
+                eprintln!("HARNESS-ERROR {}", e);
+                return 2;
+            }
+        },
+        None => trace::gen_allocfault_trace(seed, run),
+    };
+    let out = execute(&t);
+    print!("{}", out.log);
+    println!("ALLOCFAULT fired={} double_frees={}", out.stats.alloc_fault_fired, out.stats.double_frees);
+    if let Some(v) = out.violation {
+        let memory = v.oracle.starts_with("O4");
+        if (prop == "C03") == memory {
+            println!("-----BEGIN REPLAY-----\n{}# property {}\n# oracle {}\n-----END REPLAY-----", t.to_text(), prop, v.oracle);
+            println!("VIOLATION property={} replay=- oracle={} engine=write-sim-allocfault seed={} run={} step={} detail={}", prop, v.oracle, seed, run, v.step, json_str(&v.detail));
+            return 1;
+        }
+    }
+    0
 }
 
 fn cmd_replay(path: &str) -> i32 {
@@ -622,6 +658,13 @@ fn main() {
             Some(p) => cmd_replay(p),
             None => 2,
         },
+        Some("allocfault") => cmd_allocfault(&kv),
+        Some("allocfault-gen") => {
+            let seed: u64 = kv.get("seed").map(|s| s.parse().unwrap()).unwrap_or(simcore::DEFAULT_SEED);
+            let run: u64 = kv.get("run").map(|s| s.parse().unwrap()).unwrap_or(0);
+            print!("{}", trace::gen_allocfault_trace(seed, run).to_text());
+            0
+        }
         Some("gen") => {
             let seed: u64 = kv.get("seed").map(|s| s.parse().unwrap()).unwrap_or(simcore::DEFAULT_SEED);
             let run: u64 = kv.get("run").map(|s| s.parse().unwrap()).unwrap_or(0);
